@@ -55,6 +55,9 @@ class C14Property:
         chk.assumptions += [
             "_get_hashable_object injective on the attributes that occur (None vs 'builtins.NoneType' is the excluded point; probed and recorded)",
             "replacement maps do not touch dummies created inside evaluate()",
+            "term keys: SymPy's subs is structural (modelled by substT) for keys that are array symbols, applied functions, indexed symbols and folded "
+            "instances; Add/Mul/Pow keys are matched algebraically by SymPy: subs with the compound key c**2 is oracle-only, xreplace (structural for every "
+            "key) is modelled; a key that is a folded sub-instance is compared with the model only (after unfolding it no longer occurs: no law)",
             "oracle substitution values respect the assumptions of the replaced symbol (SymPy simplifies with them at construction)",
         ]
         failing: list[dict] = []
@@ -175,6 +178,25 @@ class C14Property:
                     chk.broken_correspondence("generated numpy source of the folded form vs of the unfolded form", s_)
                 stats["numpy_code_comparisons"] += n
                 chk.count(None, n)
+        # ---- substitution keys that are TERMS (ArraySymbol four-momenta, applied functions, indexed symbols, c**2), on an
+        # instance of every table class and on that instance inside the array/sum helper classes
+        n_wrap = 2 if self.n_compound <= 8 else 10
+        for entry in entries:
+            try:
+                r = corr.keyed_instance_of(pools, entry, rng, 1)
+            except Exception:  # noqa: BLE001
+                stats["keyed_instance_failed"] = stats.get("keyed_instance_failed", 0) + 1
+                continue
+            ws = corr.wrapped(pools, entry, r, rng)
+            # PoolSum wrappers always, the other helpers in rotation
+            first = [w for w in ws if w[0].startswith("PoolSum(index")]
+            rest = [w for w in ws if w not in first]
+            for label, obj in [("instance", r), *first, *rng.sample(rest, min(n_wrap, len(rest)))]:
+                chk.count(("oracle-term-key", entry.key, label))
+                try:
+                    fails += corr.with_cap(CAP_S, oracle.check_term_keys, entry.key, label, obj, pools, rng, ctx, stats)
+                except corr._Timeout:  # noqa: SLF001
+                    stats["timeouts"].append(f"term keys: {entry.key} / {label}")
         for name, obj in pools.helper_instances(rng).items():
             try:
                 fails += corr.with_cap(CAP_S, oracle.check_instance, None, obj, pools, rng, ctx, stats)
@@ -248,7 +270,11 @@ MANIFEST = {
         "non-SymPy attributes (substitution lemma for templates; one unfolding step = evaluate()); a == b iff hash content equal; a == b iff "
         "(class, args, attrs) equal under injectivity of _get_hashable_object on the occurring attributes (excluded point None vs "
         "'builtins.NoneType': witness theorem, probed on the real code: the two instances do compare equal); func(*args) reproduces instances "
-        "of all-SymPy-field classes; decide-witness for the recursive (astuple) variant. Partial: classes whose evaluate() inspects its "
+        "of all-SymPy-field classes; decide-witness for the recursive (astuple) variant. Substitution KEYS that are terms (substT/xreplaceT = "
+        "Basic._subs/_xreplace keyed by an arbitrary sub-term, through PoolSum — summand and pool values — and the decorator's methods): with "
+        "symbol keys they coincide with the symbol-keyed subs/xreplace (theorems), and unfold(subs(old,new) t) = subs(old,new)(unfold t) for every key "
+        "that is an uninterpreted node (ArraySymbol four-momentum, applied function, indexed symbol, folded instance of another class) whose head occurs "
+        "in no template of the class — for the regenerated table the heads of ArraySymbol, H(...) and B[...] are re-proved fresh on every run. Partial: classes whose evaluate() inspects its "
         "arguments (today BlattWeisskopfSquared, PhaseSpaceFactorSWave) have no template in the model, their commutation law is checked on "
         "the real code only; deep doit() (iterated unfolding incl. SymPy's own doit on Sum/Piecewise) and the clause 'numpy code of folded "
         "= of unfolded' are not theorems. The code-generation clause is checked on the real code only, for every table class carrying a "
@@ -261,7 +287,11 @@ MANIFEST = {
         "Trusted: Lean kernel + Mathlib (axioms propext, Classical.choice, Quot.sound); the class-table extractor and the SymPy<->S-expression "
         "converter (a wrong table makes the correspondence disagree: every table class is instantiated with random nested arguments and "
         "attributes and run through the real __new__/xreplace/subs/evaluate/==/hash/func(*args)/pickle and the model, results compared with == "
-        "after rebuilding with the real constructors; non-SymPy attribute values include None, strings, classes and FUNCTIONS (closures of one "
+        "after rebuilding with the real constructors; the same for subs/xreplace keyed by TERMS — an ArraySymbol (replaced by another one / by an "
+        "ArraySum), an applied function, an indexed symbol, a folded sub-instance, compound sub-expressions (xreplace) — on an instance of every table "
+        "class and on that instance inside PoolSum (summand, symbolic pool, nested), ArraySum, ArrayAxisSum, ArraySlice, ArrayMultiplication, "
+        "MatrixMultiplication, ComplexSqrt; the oracle checks subs/xreplace-then-doit against doit-then-subs/xreplace for these keys structurally, by "
+        "the atoms left, by value and through lambdify on random four-momenta; non-SymPy attribute values include None, strings, classes and FUNCTIONS (closures of one "
         "factory = distinct objects with one qualified name, lambdas, a module-level function; a function is an opaque token with the identity "
         "of the Python object), with one instance per function value of every callable attribute in every run and the substitution laws "
         "re-checked on the second of two instances that differ only in such an attribute (SymPy caches subs by equality); unfold results modulo SymPy's non-confluent arithmetic canonicalisation: expand, then "
